@@ -76,6 +76,8 @@ def make_codec(imath, clsname):
         f = scal[base]
         return (lambda x: f(x)), (lambda e: int(e)), {"kind": "scalar"}
     el = getattr(imath, base, None)
+    if el is None and re.match(r"^C[34][cf]$", base):
+        el = getattr(imath, "Color" + base[1:], None)      # C3cArray holds Color3c
     if el is None:
         return None
     cands = []
